@@ -211,9 +211,14 @@ func crossOracles(nodes []*replayNode, all []string) []violation {
 	for _, n := range nodes {
 		allCases = append(allCases, n.c)
 	}
-	if inconsistentReplay(allCases) {
-		// the file feeds an operator a message in the name of a correct operator that does not send it on this tree: the
-		// recorded schedule is not a schedule of this tree (the traces are still diffed against the model)
+	staleTimer := false
+	for _, c := range allCases {
+		staleTimer = staleTimer || (*mode == "c07" && c.firedUnarmed)
+	}
+	if inconsistentReplay(allCases) || staleTimer {
+		// the file feeds an operator a message in the name of a correct operator that does not send it on this tree, or (c07:
+		// the continuation fires timers as armed) fires a round timer that is not the live one here: the recorded schedule
+		// is not a schedule of this tree (the traces are still diffed against the model)
 		nodes[0].c.tags = append(nodes[0].c.tags, "replay/schedule-does-not-exist-on-this-tree")
 		return nil
 	}
